@@ -9,8 +9,10 @@
 (*                                         weakened by exactly that deviation's witness        *)
 EXTENDS TestRunner, Json
 
-CONSTANTS MaxLen, Deviations, EmitCase, EmitMod
-MCFuel == 60
+CONSTANTS MaxLen, Deviations, EmitCase, EmitMod,
+          Alphabet,     \* "A": the alphabet of round 1;  "B": stack/status/rti/indirect-jump alphabet of round 4
+          MCFuelC       \* instructions after which a run of the model counts as not terminating
+MCFuel == MCFuelC
 
 N(n) == [k |-> "num", n |-> n, radix |-> "dec", lz |-> 0]
 Id(path, name) == [k |-> "id", name |-> name, path |-> path, mod |-> ""]
@@ -23,7 +25,7 @@ CpuA == Id(<<"cpu", "a">>, "cpu.a")
 CpuX == Id(<<"cpu", "x">>, "cpu.x")
 L == Id(<<"L">>, "L")
 
-Atoms == <<
+AtomsA == <<
   Insn("lda", "imm", N(1)),                                             \*  1
   Insn("ldx", "imm", N(2)),                                             \*  2
   Imp("dex"),                                                           \*  3
@@ -51,11 +53,43 @@ Sub == <<[k |-> "const", name |-> "k", e |-> N(7)],
             [k |-> "assert", aid |-> 100, e |-> Bin("==", [k |-> "ram", e |-> N(16)], Id(<<"k">>, "k")), hasMsg |-> TRUE, msg |-> "called once"],
             Imp("rts")>>]>>
 
+LoB(nm) == [k |-> "id", name |-> nm, path |-> <<nm>>, mod |-> "<"]
+HiB(nm) == [k |-> "id", name |-> nm, path |-> <<nm>>, mod |-> ">"]
+Flag(nm) == Id(<<"cpu", "flags", nm>>, "cpu.flags." \o nm)
+(* alphabet B: every atom is a short sequence of statements *)
+AtomsB == <<
+  <<Insn("lda", "imm", N(1))>>,                                                         \*  1
+  <<Imp("pha")>>,                                                                       \*  2
+  <<Imp("pla")>>,                                                                       \*  3
+  <<Imp("php")>>,                                                                       \*  4
+  <<Imp("plp")>>,                                                                       \*  5
+  <<Imp("sec")>>,                                                                       \*  6
+  <<Insn("cmp", "imm", N(1))>>,                                                         \*  7
+  <<[k |-> "label", name |-> "L", hasBody |-> FALSE, body |-> <<>>]>>,                  \*  8
+  (* a vector at $00FF: low byte there, high byte at $0000 (page wrap), then jmp ($00ff) *)
+  <<Insn("lda", "imm", LoB("L")), Insn("sta", "dir", N(255)), Insn("lda", "imm", HiB("L")), Insn("sta", "dir", N(0)),
+    Insn("jmp", "ind", N(255))>>,                                                       \*  9
+  (* return address and the current status on the stack, then rti *)
+  <<Insn("lda", "imm", HiB("L")), Imp("pha"), Insn("lda", "imm", LoB("L")), Imp("pha"), Imp("php"), Imp("rti")>>,   \* 10
+  <<Asrt(Bin("==", CpuA, N(52)))>>,                                                     \* 11  ($34 = pushed status with only I set)
+  <<Asrt(Flag("carry"))>>,                                                              \* 12
+  <<Asrt(Bin("==", Id(<<"cpu", "sp">>, "cpu.sp"), N(253)))>>,                           \* 13
+  <<Asrt(Not(Flag("zero")))>>                                                           \* 14
+>>
+
+NAtoms == IF Alphabet = "A" THEN Len(AtomsA) ELSE Len(AtomsB)
+AtomSeq(a) == IF Alphabet = "A" THEN <<AtomsA[a]>> ELSE AtomsB[a]
+LabelAtom == IF Alphabet = "A" THEN 7 ELSE 8
+LabelUsers == IF Alphabet = "A" THEN {8, 9} ELSE {9, 10}
+FirstAssertAtom == 11
 Count(sh, a) == Cardinality({i \in DOMAIN sh : sh[i] = a})
-WellFormed(sh) == /\ Count(sh, 7) <= 1
-                  /\ (Count(sh, 8) + Count(sh, 9) > 0 => Count(sh, 7) = 1)
-                  /\ \E i \in DOMAIN sh : sh[i] >= 11                       \* at least one assertion
-Body(sh) == [i \in DOMAIN sh |-> IF Atoms[sh[i]].k = "assert" THEN [Atoms[sh[i]] EXCEPT !.aid = i] ELSE Atoms[sh[i]]]
+WellFormed(sh) == /\ Count(sh, LabelAtom) <= 1
+                  /\ ((\E i \in DOMAIN sh : sh[i] \in LabelUsers) => Count(sh, LabelAtom) = 1)
+                  /\ \E i \in DOMAIN sh : sh[i] >= FirstAssertAtom            \* at least one assertion
+Tag(ss, i) == [j \in 1..Len(ss) |-> IF ss[j].k = "assert" THEN [ss[j] EXCEPT !.aid = i] ELSE ss[j]]
+RECURSIVE Flat(_, _)
+Flat(sh, i) == IF i > Len(sh) THEN <<>> ELSE Tag(AtomSeq(sh[i]), i) \o Flat(sh, i + 1)
+Body(sh) == Flat(sh, 1)
 Project(sh) == [segdefs |-> <<>>,
                 items |-> <<[k |-> "test", name |-> "t", body |-> Body(sh) \o <<Imp("brk")>>]>> \o Sub]
 
@@ -63,7 +97,7 @@ VARIABLES shape, T, s
 vars == <<shape, T, s>>
 Once == "AssertionFiresOnce" \in Deviations
 
-Init == /\ \E n \in 1..MaxLen : shape \in [1..n -> 1..Len(Atoms)]      \* (enumerated lazily: 16^5 exceeds TLC's set-size limit)
+Init == /\ \E n \in 1..MaxLen : shape \in [1..n -> 1..NAtoms]      \* (enumerated lazily: 16^5 exceeds TLC's set-size limit)
         /\ WellFormed(shape)
         /\ T = Layout(Project(shape), "t")
         /\ T.ok
@@ -84,6 +118,7 @@ TypeInv == /\ TypeOK(s.c) /\ s.pending \subseteq 1..Len(T.asserts)
            /\ Len(s.trace) = s.n /\ Len(s.fired) = s.n
 (* the runner's machine walks the declarative path *)
 FollowsPath == LET p == Path(T) IN \A i \in 1..Len(s.trace) : i <= Len(p) => s.trace[i] = Regs(p[i])
+FollowsPathAtEnd == Done => FollowsPath          \* the same, evaluated once per run (long-fuel configuration)
 (* a failed run names an assertion placed at the pc where the machine stands, and that assertion is false there *)
 FailureIsReal == s.status = "failed" =>
    \E j \in 1..Len(T.asserts) : T.asserts[j].aid = s.aid /\ T.asserts[j].pc = s.c.pc /\ Truth(T.asserts[j], s.c, T.sigma) = "false"
@@ -96,6 +131,13 @@ NoFailInLoop == ~(s.status = "failed" /\ Ideal(T).visit > 1)
 NoFailInSub == ~(s.status = "failed" /\ s.aid = 100)
 NoUnevaluable == ~(s.status = "failed" /\ s.aid # 100 /\ shape[s.aid] = 16)
 NoSkipped == ~(s.status = "passed" /\ \E j \in 1..Len(T.asserts) : \A i \in 1..Len(s.trace) : s.trace[i].pc # T.asserts[j].pc)
+
+(* alphabet B: a passing run through the page-wrapped indirect jump / through rti / that saw the pushed break bits *)
+Has(a) == \E i \in DOMAIN shape : shape[i] = a
+NoWrapJumpPass == ~(s.status = "passed" /\ Has(9) /\ s.n >= 6)
+NoRtiPass == ~(s.status = "passed" /\ Has(10) /\ s.n >= 7)
+NoBreakBitsSeen == ~(s.status = "passed" /\ Has(11))
+NoPlpFlags == ~(s.status = "passed" /\ Has(5) /\ Has(12))
 
 (* ---- cases for the implementation: one line per finished run *)
 Case == [prj |-> Project(shape), shape |-> shape, ideal |-> Ideal(T).v, aid |-> Ideal(T).aid, visit |-> Ideal(T).visit, steps |-> s.n]
